@@ -1,2 +1,102 @@
-"""per-property metadata for the evidence files"""
-PROPS = {}
+"""per-property metadata: evidence texts, residual clauses (out of scope for per-call contracts), manifest notes"""
+
+COMMON_ASSUME = [
+    'floats (time stamps, deadlines) are treated as mathematical reals; time.time() is positive and monotone within a call',
+    'CPython executes single container operations atomically (GIL); threads are not modelled in per-call contracts',
+]
+
+PROPS = {
+    'C01': {
+        'explanation': 'J1939-21 transport: send_pgn accept/refuse and session record, TP.CM/TP.DT handlers (session open, reassembly '
+                       'buffer = old buffer ++ data octets, completion delivers exactly once the first `size` octets and deletes the '
+                       'session in the same call), background pass (k-th TP.DT = payload[7k:7k+7] padded with 0xFF, state advanced '
+                       'before the frame is handed to the bus), dispatch in notify; class invariant inv21 preserved by every unit.',
+        'out_of_scope': ['2-4 stacks on one bus with simultaneous transfers and per-receiver delivery latencies (whole-bus schedules)',
+                         'composition "originator stack -> bus -> responder stack" end to end; it is covered only through the per-frame '
+                         'contracts of both roles and the shared frame layout specs'],
+        'design_ref': '6 (C01/C02), appendix A',
+    },
+    'C03': {
+        'explanation': 'every J1939-21 frame builder against the independent SAE layout functions of specs/ (identifier fields, control '
+                       'byte, LE16 size, packet counts, LE24 PGN with PS=0 for PDU1 PGNs, 1-based sequence numbers, 0xFF fill); field '
+                       'extraction in the handlers; identifier/PGN codecs (C15 units).',
+        'out_of_scope': ['real-time pacing windows (the deadline arithmetic is C09)', 'J1939-22 (FD) builders: pending, see DESIGN'],
+        'design_ref': '6 (C03)',
+    },
+    'C04': {
+        'explanation': 'local decision tables of address claiming: claim timer (_process_claim_async), contest (_process_addressclaim: '
+                       'ignore / win / lose fixed / lose arbitrary, comparison on the 64-bit NAME values), claim frame layout, broadcast '
+                       'of claims to every CA (notify), start/stop registration.',
+        'out_of_scope': ['settling within bounded time, 250 ms veto windows relative to other CAs start times, 2-4 stacks, delivery '
+                         'latencies (bus-level histories)'],
+        'design_ref': '6 (C04)',
+    },
+    'C05': {
+        'explanation': 'the three filters: bus listener flags (only extended data frames; exceptions contained), destination filter of '
+                       'J1939_21.notify before any protocol handling (reject path: empty trace, nothing modified), per-listener delivery '
+                       'rule of _notify_subscribers (exactly the selected listeners, once each, in order), CA/ECU acceptance predicates.',
+        'out_of_scope': ['multi-stack bystander histories', 'J1939-22 notify: pending, see DESIGN'],
+        'design_ref': '6 (C05)',
+    },
+    'C06': {
+        'explanation': 'J1939-21 deadlines (armed(T) = time()+T for the standard value of the new state), expiry in the background pass '
+                       '(receive session: removed, abort reason 3 to the originator unless broadcast; send session waiting for CTS: abort '
+                       'reason 3 and removed), wake-up of the job thread whenever a deadline is set, re-acceptance after removal '
+                       '(send_pgn refuses only while the key is present), completion test counts octets against the announced size.',
+        'out_of_scope': ['virtual time at which both sides are empty, which frame was lost on a real bus', 'J1939-22: pending'],
+        'design_ref': '6 (C06)',
+    },
+    'C07': {
+        'explanation': 'class invariant inv21 established by __init__ and preserved by every handler on every frame (any octets, any '
+                       'length 0..8, also on exceptional exits), by send_pgn and by the background pass; the pass raises nothing and '
+                       'progresses: afterwards every remaining session has its deadline in the future and the returned wake-up is in '
+                       '(now, now+5] and not later than any deadline (no stall, no busy spin); listener contains handler exceptions.',
+        'out_of_scope': ['that OS timers fire on time afterwards', 'J1939-22: pending'],
+        'design_ref': '6 (C07), appendix A',
+    },
+    'C09': {
+        'explanation': 'J1939-21 originator: no TP.DT unless the session is in a sending state, a burst never passes the window end of a '
+                       'sane grant and then waits for the next CTS, hold CTS only extends the wait (Th), CTS ignored unless waiting; '
+                       'BAM: one packet per expired deadline, next deadline >= now + interval (default 50 ms); responder: every CTS '
+                       'grants <= RTS limit, <= own maximum, <= packets remaining.',
+        'out_of_scope': ['"not more than 200 ms when idle" (needs the OS to run the thread on time)', 'J1939-22: pending'],
+        'design_ref': '6 (C09)',
+    },
+    'C10': {
+        'explanation': 'J1939-21: send_pgn returns False iff a session for the (source, destination) key exists, then without any effect; '
+                       'every finished / timed-out / aborted session is deleted by the pass (frame conditions of all handlers: '
+                       'receive-side handlers never touch the send table).',
+        'out_of_scope': ['"after each history the full batch completes" as a run', 'J1939-22 session-number pools: pending'],
+        'design_ref': '6 (C10)',
+    },
+    'C13': {
+        'explanation': 'state guard and source address of every ControllerApplication send entry point (send_message, send_pgn, '
+                       'send_request, _send_address_claimed), class invariant of the CA (operational => holds the announced address), '
+                       'losing a contest leaves the operational state in the same call.',
+        'out_of_scope': [],
+        'design_ref': '6 (C13)',
+    },
+    'C14': {
+        'explanation': 'request encoding (3 octets LE to PGN 0xEA00|DA, priority 6, from the held address or 254), dispatch in notify to '
+                       'exactly the CAs that accept the destination, filter / claim answer / callback fan-out in _process_request, '
+                       'decoded PGN = requested PGN for all 2^24 values.',
+        'out_of_scope': ['requester stack -> bus -> responder stack composition'],
+        'design_ref': '6 (C14)',
+    },
+    'C15': {
+        'explanation': 'MessageId, ParameterGroupNumber and Name codecs in bit-vector arithmetic against the J1939-21/-81 bit tables: '
+                       'compose, parse, both round trips, PDU1/PDU2 classification, NAME from fields / value / 8 LE octets, reserved bit '
+                       'reads 0, constructor range checks; arbitration compares the 64-bit values (contest unit).',
+        'out_of_scope': [],
+        'design_ref': '6 (C15)',
+    },
+}
+
+LEVEL_TEXT = ('Deductive proof by contract: the real function bodies are re-read from /repo on every run, symbolically executed '
+              'path by path (loops by invariant), and every generated obligation (postconditions, class invariants, loop '
+              'invariants, call-out assertions, no-exception, encoding side conditions) is discharged by z3 (cvc5 fallback) '
+              'for all inputs and all pre-states satisfying the stated preconditions - no bound on values, lengths or iterations.')
+
+LEVEL_NOTE = ('Trusted: the pyvc VC generator and its semantics of the Python subset, z3/cvc5, assumed contracts of externals (bus send, '
+              'callbacks, queue, clock), floats as reals, GIL atomicity. Residual (not decided by per-call contracts) clauses are listed '
+              'in evidence coverage.out_of_scope. Every assumption used in a run is listed in the evidence file.')
